@@ -708,6 +708,7 @@ fn mode_lattice(rng: &mut Rng, n_random: u64, stride: u64) {
 
 fn main() {
     quiet_panics();
+    tcv_lib::watchdog::start(arg_u64("--call-limit-ms", 5000));
     let seed = arg_u64("--seed", 1);
     let mode = arg_value("--mode").unwrap_or_else(|| "hist".into());
     let n = arg_u64("--cases", 200);
